@@ -61,51 +61,49 @@ example :
     (apply s (.put (el 9 1) 3)).ring 1 = some (el 5 0) ∧ (apply s (.put (el 5 2) 3)).ring 1 = some (el 5 0) := by
   decide
 
-/-- C20 (queue): in calm interleavings `Run` never offers the chain an element above `height+1`
-(so a failed `AddItem` of a valid element means its index is already on the chain). -/
-theorem queue_offers_only_next (cap h0 : Nat) (hc : 0 < cap) (as : List Act)
-    (hcalm : Calm (init cap h0) as) (b : Elem) (pos : Nat) :
+/-- C20 (queue): in EVERY interleaving — producers with stale heights, external chain additions at any moment
+(also between `Run`'s height read and its lock section), Discard — `Run` never offers the chain an element
+above `height+1` (so a failed `AddItem` of a valid element means its index is already on the chain). Since the
+guard `b.GetIndex() > h+1 → continue` of `Run` no calmness is needed. -/
+theorem queue_offers_only_next (cap h0 : Nat) (hc : 0 < cap) (as : List Act) (b : Elem) (pos : Nat) :
     let s := exec (init cap h0) as
     s.pc = .holding b pos → b.idx ≤ s.height + 1 := by
   intro s hp
-  exact (fresh_exec _ as (inv_init cap h0 hc) (fresh_init cap h0) hcalm).holding b pos hp
+  exact (offer_exec _ as (inv_init cap h0 hc) (offer_init cap h0)).holding b pos hp
 
-example : Calm (init 4 0) [.run, .put (el 1 0) 0, .run, .run, .run] ∧
-    (exec (init 4 0) [.run, .put (el 1 0) 0, .run, .run, .run]).pc = .holding (el 1 0) 1 := by
-  exact ⟨(calm_iff _ _).2 (by decide), by decide⟩
+-- non-vacuity: the schedule of the former finding additem-ahead-ext (external addition between read and lock, then
+-- a put of the new window's top into that slot): `Run` does not take block 10 at height 6, it re-reads the height
+example :
+    let as : List Act := [.run, .put (el 7 0) 5, .run, .run, .adv, .put (el 10 1) 6, .run]
+    (exec (init 4 5) as).pc = .top ∧ (exec (init 4 5) (as ++ [.run, .run])).pc = .holding (el 7 0) (posOf 4 7) := by
+  decide
 
-/-- C20 (queue, no loss): in calm interleavings a valid element that sits in the ring stays `Retained`
-for ever after: its index is on the chain, or it is still in its slot, or `Run` is holding it for
-`AddItem`. -/
+/-- C20 (queue, no loss — every schedule without Discard): a valid element that sits in the ring stays `Retained`
+for ever after — its index is on the chain, or it is still in its slot, or `Run` is holding it for `AddItem` —
+whatever producers (any stale heights), `Run` and external writers of the chain do, external additions between
+`Run`'s height read and its lock section included: `Run` never drops an in-window, not yet applied element. -/
 theorem queue_no_loss (cap h0 : Nat) (hc : 0 < cap) (pre post : List Act) (x : Elem) (hok : x.ok = true)
-    (hcalm : Calm (init cap h0) (pre ++ post))
+    (hnd : ∀ a ∈ post, a ≠ .disc)
     (hin : (exec (init cap h0) pre).ring (posOf cap x.idx) = some x) :
     Retained (exec (init cap h0) (pre ++ post)) x := by
   have hexec : ∀ (s : State) (as bs : List Act), exec s (as ++ bs) = exec (exec s as) bs := by
     intro s as bs; induction as generalizing s with
     | nil => rfl
     | cons a r ih => exact ih _
-  rw [calm_append] at hcalm
   rw [hexec]
   have hi := inv_exec _ pre (inv_init cap h0 hc)
-  have hcap : (exec (init cap h0) pre).cap = cap := by
-    have : ∀ (s : State) (as : List Act), (exec s as).cap = s.cap := by
-      intro s as; induction as generalizing s with
-      | nil => rfl
-      | cons a r ih =>
-        rw [exec, ih]
-        cases a with
-        | put e hr => exact (put_frame s e _).2.2.1
-        | adv => rfl
-        | disc => simp only [apply, discard]; split <;> rfl
-        | run =>
-          simp only [apply, runStep]; split <;> try rfl
-          unfold wake; split
-          · rfl
-          · split <;> rfl
-    exact this _ _
-  exact retained_exec _ post x hi (fresh_exec _ pre (inv_init cap h0 hc) (fresh_init cap h0) hcalm.1) hok hcalm.2
+  have hcap : (exec (init cap h0) pre).cap = cap := exec_cap _ _
+  exact retained_exec_all _ post x hi (offer_exec _ pre (inv_init cap h0 hc) (offer_init cap h0)) hok hnd
     (.inr (.inl (by rw [hcap]; exact hin)))
+
+-- non-vacuity / regression for additem-ahead-ext: block 10 is put into the slot `Run` is about to read with a stale
+-- height; after any number of further steps (here: `Run` applies 7, another writer adds 8 and 9) it is still there
+example :
+    let pre : List Act := [.run, .put (el 7 0) 5, .run, .run, .adv, .put (el 10 1) 6]
+    let post : List Act := [.run, .run, .run, .run, .run, .run, .adv, .adv, .run, .run]
+    (exec (init 4 5) pre).ring (posOf 4 10) = some (el 10 1) ∧
+    (exec (init 4 5) (pre ++ post)).ring (posOf 4 10) = some (el 10 1) ∧ (exec (init 4 5) (pre ++ post)).height = 9 := by
+  decide
 
 /-- C20 (queue, progress): take any state reached by a calm interleaving in which every index in
 `(height, m]` has a valid element in its slot and `Run` is inside its loop or has a signal pending.
@@ -205,7 +203,7 @@ example :
 /-- C20 (queue, what the drift of `len`/`lastQ` can and cannot affect): the queue never reads `len` or
 `lastQ` for a decision. Two runs of the same interleaving started from states that differ only in these two
 fields agree, step for step, on the ring, on `Run`'s position, on the chain and on its whole event log. So
-the under-count proved in `queue_len_undercount_witness` is confined to what `LastQueued` reports (and, outside the
+a mis-count of `len` (the former findings len-drift, len-undercount) is confined to what `LastQueued` reports (and, outside the
 model, to what `Server.requestBlocks` does with it); ordering, at-most-once, retention and progress are
 unaffected. -/
 theorem queue_counters_write_only (s t : State) (as : List Act) (h : SameButCounters s t) :
@@ -239,24 +237,15 @@ theorem queue_stuck_after_external_add_witness :
   rw [runN_blocked n _ (by decide) (by decide) (by decide)]
   decide
 
-/-- FINDING (additem-ahead-ext). `Run` reads height 5 outside the lock; another writer adds block 6; a
-producer puts block 10 = 6 + cap (inside the window, same slot as 6); `Run`'s lock section takes it,
-`AddItem(10)` fails at height 6 and the slot is cleared: a valid in-window block is lost unapplied.
-Negation of `queue_no_loss` without the calmness hypothesis. -/
-theorem queue_drops_window_top_on_race_witness :
+-- Regression for additem-ahead-ext (fixed by the guard `b.GetIndex() > h+1 → continue`): `Run` reads height 5 outside
+-- the lock; another writer adds block 6; a producer puts block 10 = 6 + cap (inside the window, same slot as 6).
+-- `Run`'s lock section used to take it, `AddItem(10)` failed at height 6 and the slot was cleared. Now the only
+-- chain event is the external addition, block 10 stays in its slot and `Run` goes back to read the height.
+example :
     let pre : List Act := [.run, .put (el 7 0) 5, .run, .run, .adv, .put (el 10 1) 6]
-    let s := exec (init 4 5) pre
     let s' := exec (init 4 5) (pre ++ [.run, .run, .run])
-    s.ring (posOf 4 10) = some (el 10 1) ∧ s.height < 10 ∧ 10 ≤ s.height + 4 ∧
-    ¬ Retained s' (el 10 1) ∧ s'.log = [.ext 6, .add (el 10 1) false] := by
-  refine ⟨by decide, by decide, by decide, ?_, by decide⟩
-  intro h
-  rcases h with h | h | ⟨p, h⟩
-  · revert h; decide
-  · revert h; decide
-  · have hpc : (exec (init 4 5) ([.run, .put (el 7 0) 5, .run, .run, .adv, .put (el 10 1) 6] ++ [.run, .run, .run])).pc = .top := by
-      decide
-    rw [hpc] at h; cases h
+    s'.ring (posOf 4 10) = some (el 10 1) ∧ s'.log = [.ext 6] ∧ Retained s' (el 10 1) := by
+  refine ⟨by decide, by decide, .inr (.inl (by decide))⟩
 
 -- Regression for len-drift (fixed by 3d50aab). Under the OLD rule (Put counted `len++` also when it replaced a
 -- stale element, and the clean-up loop compared the slot's index with `i` instead of `i+1`, so it never removed
@@ -272,14 +261,15 @@ example :
     lastQueued s = (5, 4) := by
   exact ⟨(calm_iff _ _).2 (by decide), by decide, by decide, by decide, by decide⟩
 
-/-- C20 (queue, `len` never over-counts — every schedule). For every capacity, start height and EVERY
-interleaving of puts (any elements, any stale heights, duplicates, re-inserts of passed indices), `Run` steps,
-external chain additions and Discard: `len` is at most the number of occupied slots, i.e. `LastQueued` never
-reports less free capacity than there is (what the finding len-drift was about; it could reach 0 and stop
-`Server.requestBlocks`). Equality is NOT an invariant of the code as written, see the next witness. -/
-theorem queue_len_never_overcounts (cap h0 : Nat) (hc : 0 < cap) (as : List Act) :
+/-- C20 (queue, `len` is exact — every schedule). For every capacity, start height and EVERY interleaving of puts
+(any elements, any stale heights, duplicates, re-inserts of passed indices, puts into the slot of the element
+`Run` is applying), `Run` steps, external chain additions and Discard: `len` is exactly the number of occupied
+slots, i.e. `LastQueued` reports exactly the free capacity. (After 3d50aab — Put counts an element only when its
+slot was empty, the clean-up loop removes what others applied — and 6d1ab5f — Run counts down only when its slot
+still holds the applied element. The two findings len-drift and len-undercount were the two ways this failed.) -/
+theorem queue_len_exact (cap h0 : Nat) (hc : 0 < cap) (as : List Act) :
     let s := exec (init cap h0) as
-    s.len ≤ (occupied s : Nat) ∧ (cap : Int) - (occupied s : Nat) ≤ (lastQueued s).2 := by
+    s.len = (occupied s : Nat) ∧ (lastQueued s).2 = (cap : Int) - (occupied s : Nat) := by
   intro s
   have hx : NoOver s := noOver_exec (init cap h0) as (inv_init cap h0 hc) (by simp [NoOver, init, occN_none])
   have hcap : s.cap = cap := exec_cap _ _
@@ -289,34 +279,29 @@ theorem queue_len_never_overcounts (cap h0 : Nat) (hc : 0 < cap) (as : List Act)
   simp only [lastQueued, hcap]; omega
 
 -- non-vacuity: a stale duplicate, an external addition and a put into the slot of the element being applied:
--- 2 of 4 slots occupied, `len` = 1 (not more than occupied; not equal either)
+-- 2 of 4 slots occupied, `len` = 2
 example :
     let s := exec (init 4 0) [.run, .put (el 1 0) 0, .run, .run, .run, .run, .put (el 1 1) 0, .adv, .put (el 5 2) 2,
       .put (el 4 3) 1, .run, .run, .run]
-    occupied s = 2 ∧ s.len = 1 := by decide
+    occupied s = 2 ∧ s.len = 2 := by decide
 
-/-- FINDING (len-undercount), what is left of the `len` bookkeeping after 3d50aab. `Run` has applied block 1 and
-is on its way to its second lock section (queue.go:130-135); a producer puts block 5 = 1 + cap, which is inside
-the window now and lives in the same slot: `Put` replaces the applied element without `len++` (the slot was not
-empty), then `Run` counts `len--` although the slot it wanted to clear is no longer its element's. The ring holds
-block 5 and `LastQueued` reports all 4 slots free; when 5 is applied later `len` is −1 for good. No external
-writer, no stale height, no duplicate is involved. (Before the fix the replacement was counted, which made this
-interleaving exact and others drift upwards; counting down only when the slot still holds the applied element
-would make `len` exact.) -/
-theorem queue_len_undercount_witness :
+-- Regression for len-undercount (fixed by 6d1ab5f). Under the rule of 3d50aab alone (Run's second lock section
+-- counted `len--` unconditionally) this schedule — `Run` has applied block 1, a producer puts block 5 = 1 + cap
+-- into the same slot before `Run`'s second lock section — ended with block 5 in the ring and `LastQueued = (1, 4)`,
+-- all 4 slots reported free. Now the replaced element is not counted down: 3 of 4 free.
+example :
     let as : List Act := [.run, .put (el 1 0) 0, .run, .run, .run, .run, .put (el 5 1) 1, .run, .run, .run, .run,
       .run, .run]
     let s := exec (init 4 0) as
-    NoExt as ∧ s.pc = .wait ∧ s.ring (posOf 4 5) = some (el 5 1) ∧ occupied s = 1 ∧ lastQueued s = (1, 4) := by
+    NoExt as ∧ s.pc = .wait ∧ s.ring (posOf 4 5) = some (el 5 1) ∧ occupied s = 1 ∧ lastQueued s = (1, 3) := by
   refine ⟨by simp [NoExt], by decide, by decide, by decide, by decide⟩
 
 /-- C20 (queue, the schedule classes of the three findings). (1) `stuck-ext` needs an external writer: in
 every interleaving WITHOUT an external addition and without Discard (every block goes through `Put`, from any
 number of producers with arbitrarily stale heights, duplicates, invalid elements), whenever every index in
 `(height, m]` has a valid element in its slot, `Run` alone brings the chain to `m` — it is never asleep
-without a pending signal while the next block is queued. (2) `additem-ahead-ext` needs an external addition
-between `Run`'s height read and its lock section: `queue_offers_only_next`. (3) `len` (after 3d50aab): `queue_len_never_overcounts` for every schedule, `queue_len_undercount_witness` for
-what is left; by `queue_counters_write_only` it touches nothing but what `LastQueued` reports. The harness keys a failure as the known finding only inside its class;
+without a pending signal while the next block is queued. (2) the former finding `additem-ahead-ext`
+is excluded for every schedule: `queue_offers_only_next`, `queue_no_loss`. (3) `len` is exact for every schedule now (`queue_len_exact`, after 3d50aab and 6d1ab5f). The harness keys a failure as the known finding only inside its class;
 the same symptom outside it is reported as a new defect (`stuck`, `additem-ahead`, `len-drift-fresh`). -/
 theorem queue_no_external_writer_never_stuck (cap h0 : Nat) (hc : 0 < cap) (as : List Act) (hn : NoExt as)
     (m : Nat) :
